@@ -7,11 +7,11 @@ From Delb.XPath Require Import Ast Nav Eval Ref Subset.
 
 Definition nd_at (D : itree) (p : npath) : nd := (p, opt_default D (subtree D p)).
 
-Definition enc_path (p : npath) : list N := N.of_nat (length p) :: map N.of_nat p.
-Definition enc_nodes (l : list nd) : list N := enc_list (fun x => enc_path (fst x)) l.
+Definition enc_pos (p : npath) : list N := N.of_nat (length p) :: map N.of_nat p.
+Definition enc_nodes (l : list nd) : list N := enc_list (fun x => enc_pos (fst x)) l.
 Definition enc_exn (e : exn) : N :=
   match e with XPathEvaluationError => 0 | AttributeError => 1 | AssertionError => 2 | TypeError => 3
-             | NotImplementedError => 4 | OtherError => 5 end%N.
+             | NotImplementedError => 4 | OtherError => 5 | ValueError => 6 | AmbiguousTreeError => 7 end%N.
 Definition enc_res (r : res (list nd)) : list N :=
   match r with
   | Ok l => 0%N :: enc_nodes l
@@ -40,3 +40,14 @@ From Delb.XPath Require Import AstEnc LocPath.
 Definition run_locpath (root : itree) (p : npath) : list N := enc_expr (location_path root p).
 Definition run_locpath_eval (root : itree) (m : nsmap) (p ctx : npath) : list N :=
   run_eval root m (location_path root p) ctx.
+
+(* C15 *)
+From Delb.XPath Require Import FetchCreate.
+Definition enc_fault (f : fault) : list N :=
+  match f with FRejected e => [1%N; enc_exn e] | FCrash e => [2%N; enc_exn e] end.
+(* outcome ++ content of the tree afterwards *)
+Definition run_foc (root : itree) (m_eval m_create : nsmap) (e : xpath_expr) (ctx : npath) : list N :=
+  match foc default_vis root m_eval m_create e ctx with
+  | FocOk r p => 0%N :: enc_pos p ++ enc_node (content r)
+  | FocFault r f => enc_fault f ++ enc_node (content r)
+  end.
